@@ -22,7 +22,7 @@ EXPLANATION = ('Proved (structure): codegen_inv selects the Hitzer closed forms 
 TRUSTED = ['z3 5.1 (python API)', 'kvc VC generator', 'CPython ast module']
 ASSUMPTIONS = [K.ASSUME_CPYTHON, K.ASSUME_TAIL, 'floating point ("to rounding otherwise") is not modelled; exact Fractions only',
                'Shirokov inverse (d >= 6) and the 5-D closed form outside the listed signature classes are checked only on the sampled inputs', 'kingdon\'s product on symbolic operands is the reference product (C01, C02); a right inverse in a finite-dimensional algebra is a left inverse (used for d = 5 only)']
-ASSUMED = ['codegen_shirokov_inv for d >= 6: same code as proved for d <= 3, bounded stand-in on the real dimensions', 'codegen_hitzer_inv for d = 5: proved per signature class in the thorough tier, bounded in the quick tier', 'power_supply with a *sequence* of exponents (as codegen_shirokov_inv calls it): run on the real chains for d <= 3, bounded beyond; AdditionChains.minimal_chains itself is under contract (loop invariant, every limit)']
+ASSUMED = ['codegen_shirokov_inv for d >= 6: same code as proved for d <= 3, bounded stand-in on the real dimensions', 'codegen_hitzer_inv for d = 5: proved per signature class in the thorough tier, bounded in the quick tier', 'power_supply(x, (1..N)) as codegen_shirokov_inv calls it and AdditionChains.minimal_chains are under contract for every N / limit (loop invariants); the Faddeev-LeVerrier recursion around them is proved on generic elements for d <= 3 only']
 
 
 def build(H, tier, seed):
@@ -34,6 +34,7 @@ def build(H, tier, seed):
     I.vc_div_generic(H, tier)
     from contracts import powers_c as PW
     PW.vc_minimal_chains(H)
+    PW.vc_power_supply_consecutive(H)
     M.vc_mv_delegations(H, methods_binary=['div', '__truediv__'], methods_unary=['inv'])
     # __rtruediv__: operand order matters only for non-numbers on the left (C16); number/x is in the stand-in
 
